@@ -472,21 +472,23 @@ class Scene(Geometry3D):
         }
         mass = {k: m.mass for k, m in self.geometry.items() if hasattr(m, "mass")}
 
-        # get the geometry name and transform for each instance
+        # get the geometry name and transform for each
+        # instance of a geometry that has mass properties
         graph = self.graph
         instance = [graph[n] for n in graph.nodes_geometry]
+        instance = [(mat, g) for mat, g in instance if g in center_mass and g in mass]
 
         # get the transformed center of mass for each instance
         transformed = np.array(
-            [
-                np.dot(mat, np.append(center_mass[g], 1))[:3]
-                for mat, g in instance
-                if g in center_mass
-            ],
+            [np.dot(mat, np.append(center_mass[g], 1))[:3] for mat, g in instance],
             dtype=np.float64,
         )
-        # weight the center of mass locations by volume
-        weights = np.array([mass[g] for _, g in instance], dtype=np.float64)
+        # weight the center of mass locations by the mass of
+        # the instance which scales with the determinant
+        weights = np.array(
+            [mass[g] * np.abs(np.linalg.det(mat[:3, :3])) for mat, g in instance],
+            dtype=np.float64,
+        )
         weights /= weights.sum()
         return (transformed * weights.reshape((-1, 1))).sum(axis=0)
 
@@ -534,10 +536,14 @@ class Scene(Geometry3D):
         """
         # get the area of every geometry that has an area property
         areas = {n: g.area for n, g in self.geometry.items() if hasattr(g, "area")}
-        # sum the area including instancing
-        return sum(
-            (areas.get(self.graph[n][1], 0.0) for n in self.graph.nodes_geometry), 0.0
-        )
+        # sum the area including instancing and the scale of each instance:
+        # under a transform with uniform scale `s` area scales by `s**2`
+        total = 0.0
+        for node in self.graph.nodes_geometry:
+            transform, geometry = self.graph[node]
+            scale = np.abs(np.linalg.det(transform[:3, :3])) ** (1.0 / 3.0)
+            total += areas.get(geometry, 0.0) * scale**2
+        return total
 
     @caching.cache_decorator
     def volume(self) -> float64:
@@ -552,10 +558,13 @@ class Scene(Geometry3D):
         """
         # get the area of every geometry that has a volume attribute
         volume = {n: g.volume for n, g in self.geometry.items() if hasattr(g, "area")}
-        # sum the area including instancing
-        return sum(
-            (volume.get(self.graph[n][1], 0.0) for n in self.graph.nodes_geometry), 0.0
-        )
+        # sum the volume including instancing and the scale of
+        # each instance: volume scales by the determinant
+        total = 0.0
+        for node in self.graph.nodes_geometry:
+            transform, geometry = self.graph[node]
+            total += volume.get(geometry, 0.0) * np.abs(np.linalg.det(transform[:3, :3]))
+        return total
 
     @caching.cache_decorator
     def triangles(self) -> NDArray[float64]:
